@@ -74,13 +74,18 @@ def impl_dump(cfg):
     n = len(sites)
     nums = [int(lat.get_site_num(s)) for s in sites]
     nb = [nbrs_of(lat, s) for s in sites]
-    adj = adjacency(lat, cfg)
+    adj_error = None
+    try:
+        adj = adjacency(lat, cfg)
+    except Exception as e:      # e.g. a site number outside range(n): reported as a failing input, never a crash
+        adj = np.zeros((n, n), dtype=int)
+        adj_error = repr(e)[:200]
     rs = [int(x) for x in adj.sum(axis=1)]
     L = lambda f, xs: "[" + ",".join(f(x) for x in xs) + "]"
     line = (f"n={n} sites={L(fmt_pos, sites)} nums={L(str, nums)} "
             f"nbrs={L(lambda r: L(fmt_pos, r), nb)} "
             f"adj={L(lambda r: L(lambda x: str(int(x)), r), adj)} rowsum={L(str, rs)}")
-    return line, dict(lat=lat, sites=sites, nums=nums, nbrs=nb, adj=adj)
+    return line, dict(lat=lat, sites=sites, nums=nums, nbrs=nb, adj=adj, adj_error=adj_error)
 
 
 def proto_line(cfg):
@@ -95,6 +100,8 @@ def spec_check(cfg, d):
     """returns list of (clause, detail) that FAIL on the implementation"""
     bad = []
     lat, sites, nums, nb, adj = d["lat"], d["sites"], d["nums"], d["nbrs"], d["adj"]
+    if d.get("adj_error"):
+        bad.append(("the adjacency matrix can be built from the neighbour relation and the site numbering", {"error": d["adj_error"], "nums": nums}))
     n = len(sites)
     sides = cfg["sides"]
     periodic = not cfg.get("open", 0)
